@@ -141,19 +141,10 @@ Fixpoint spec_history (st : stracker) (h : list (segment * Z)) : list sresult :=
 Definition known_small_advance (t1 v1 t2 v2 : Z) : bool :=
   in_bounds t1 v1 t2 v2 && (advance v1 v2 <? 5).
 
-(* K2 backward movement reported: interval in bounds, the timestamp moved BACKWARD by b = 2^32 - d
-   ticks (d >= 2^31), and the mirrored advance b - 1 passes the code's guards and rate check. *)
-Definition known_backward (t1 v1 t2 v2 : Z) : bool :=
-  let dms := t2 - t1 in
-  let d := advance v1 v2 in
-  let inv := TWO32 - 1 - d in
-  (25 <=? dms) && (dms <=? 600000) && (TWO31 <=? d) && (5 <=? inv)
-  && ((100 <=? dms) || (inv <=? 15000)) && (dms <=? 1000 * inv) && (1000 * inv <=? 1500 * dms).
-
 Definition known_pair (t1 v1 t2 v2 : Z) : bool :=
-  known_small_advance t1 v1 t2 v2 || known_backward t1 v1 t2 v2.
+  known_small_advance t1 v1 t2 v2.
 
-(* K3 role split: the code keys its tracker by (direction, role); when two analysed segments of one
+(* K2 role split: the code keys its tracker by (direction, role); when two analysed segments of one
    direction get different roles (handshake flags disagree with the port heuristic, e.g. SYN to port
    8080 followed by ACKs) they are never paired. *)
 Fixpoint role_of_conn (seen : list (connection * role)) (c : connection) : option role :=
